@@ -285,7 +285,10 @@ Sound(ed, old, new, c, r) ==
                            ELSE {}
                  need == IF surv \subseteq movedL THEN surv ELSE surv \ movedL
                  mem == TopNodes(new, r)
-                 EdgeOK(m) == (Labels(m) \cap surv # {}) \/ (m.lab \notin Labels(old))
+                 \* statements of the old block at any depth that are still there (a rewrite may re-insert a
+                 \* descendant of a block member, e.g. replace a loop by its body)
+                 survIn == UNION { Labels(ot[j]) : j \in 1..Len(ot) } \cap Labels(new)
+                 EdgeOK(m) == (Labels(m) \cap survIn # {}) \/ (m.lab \notin Labels(old))
              IN IF r.lo = r.hi THEN surv = {} ELSE
                 /\ Len(mem) >= 1
                 /\ (Strict => \A L \in need : \E j \in 1..Len(mem) : L \in Labels(mem[j]))
